@@ -64,10 +64,19 @@
 //     that returns on some paths only is rejected.
 //   - switch tag { case k: .. default: .. } in tail position over a scalar:
 //     if Z.eqb tag k then .. else if .. else [default].
-//   - loops, goto, defer, closures, shadowing of an outer variable by an inner
-//     declaration, non-constant indices, +, -, /, % on uint64, any statement or
-//     expression form not listed: the translator STOPS with exit status 1 and
-//     a message giving the source position.  Nothing is skipped silently.
+//   - Loops: a function with a loop cannot be one Gallina definition.  The one
+//     supported shape, `P; for { for c1 {B1}; ..; for cn {Bn}; T }` (ff's
+//     Inverse), is translated to straight-line FRAGMENTS F_pre, F_loopk_cond,
+//     F_loopk_body, F_tail over the tuple of the variables that are live at
+//     the head of the outer loop; see loops.go.  The hand model glues the
+//     fragments with its fuel-bounded fixpoints and the Eq file identifies
+//     each hand-written piece with a fragment.  A fragmented function cannot
+//     be called from translated code.
+//   - any other loop, goto, defer, closures, shadowing of an outer variable by
+//     an inner declaration, non-constant indices, +, -, /, % on uint64, any
+//     statement or expression form not listed: the translator STOPS with exit
+//     status 1 and a message giving the source position.  Nothing is skipped
+//     silently.
 //
 // # Assumptions (what makes the functional reading sound)
 //
@@ -87,10 +96,11 @@
 //     assigns to them and only passes &g as an "in" argument.
 //   - A *Element result is the receiver/parameter it aliases (checked).
 //
-// Left out: Inverse (ff: unbounded loops; ffg: math/big), Exp, BatchInvert,
-// Sqrt, Legendre (loops, big.Int), ffg Halve and Div (call Inverse), byte/
-// string/big.Int conversions.  Their models remain tied to the source by
-// constants + differential testing only.
+// Left out: ffg Inverse (math/big), Exp (big.Int exponent, loop), BatchInvert
+// (slices, loops), Sqrt, Legendre (loops, big.Int), Div (calls Inverse; ff:
+// fragmented, ffg: big.Int), ffg Halve (calls Inverse), Cmp, BitLen,
+// LexicographicallyLargest, SetRandom, byte/string/big.Int conversions.  Their
+// models remain tied to the source by constants + differential testing only.
 package main
 
 import (
@@ -127,7 +137,7 @@ var configs = []config{
 			"Element.Halve", "Element.Square", "Element.SetUint64", "Element.ToMont",
 			"Element.Neg", "Element.FromMont", "reduce",
 			"mulByConstant", "MulBy3", "MulBy5", "MulBy13", "_butterflyGeneric",
-			"Butterfly",
+			"Butterfly", "Element.Inverse",
 		},
 		externs: maddExterns,
 		noalias: map[string][][2]string{
